@@ -239,7 +239,7 @@ func (c *Ctx) reinlineRule(reach []*core.FuncInfo) {
 						return true
 					}
 					for _, bs := range x.Body.List {
-						if as, ok := bs.(*ast.AssignStmt); ok && len(as.Lhs) == 1 && len(as.Rhs) == 1 && c.flowsToReturn(fi, as.Lhs[0]) {
+						if as, ok := bs.(*ast.AssignStmt); ok && len(as.Lhs) == 1 && len(as.Rhs) == 1 && (c.flowsToReturn(fi, as.Lhs[0]) || c.fieldFlowsToReturn(fi, as.Lhs[0])) {
 							if tv, isC := info.Types[as.Rhs[0]]; isC && tv.Value != nil && tv.Value.String() == "true" {
 								raises = append(raises, raise{x.Cond, nil, false})
 							}
@@ -734,6 +734,14 @@ func (c *Ctx) rebaseRule(reach []*core.FuncInfo) {
 				resolve = call
 			case core.ModPath + "/internal/flatten/schutils.Save":
 				save = call
+			default:
+				// a wrapper of the resolution: a module function returning (*spec.Schema, error) that reaches it
+				if g := c.P.Funcs[callee]; g != nil && resolve == nil {
+					if res := callee.Type().(*types.Signature).Results(); res.Len() == 2 && core.IsPointer(res.At(0).Type()) && core.IsSpecType(res.At(0).Type(), "Schema") &&
+						c.reachesExternal(g, "github.com/go-openapi/spec.ResolveRefWithBase") && !c.reachesExternal(g, core.ModPath+"/internal/flatten/schutils.Save") {
+						resolve = call
+					}
+				}
 			}
 		}
 		if resolve == nil || save == nil {
@@ -790,13 +798,41 @@ func (c *Ctx) rebaseRule(reach []*core.FuncInfo) {
 					if isImportingRef(a) {
 						bi = i
 					}
+					// the importing $ref itself (a spec.Ref rooted at a parameter), stringified by the helper
+					if core.IsSpecType(info.TypeOf(a), "Ref") {
+						if id := rootIdent(a); id != nil {
+							if o := core.ObjOf(info, id); o != nil && c.P.Locals(fi).Params[o] {
+								bi = i
+							}
+						}
+					}
 				}
 				if si < 0 || bi < 0 {
 					continue
 				}
 				gs, gb := paramObj(g, si), paramObj(g, bi)
 				ginfo := c.info(g)
-				ok2, why2 := c.rebaseLoop(g, g.Decl.Body, gs, func(e ast.Expr) bool { return gb != nil && core.ObjOf(ginfo, e) == types.Object(gb) }, g.Decl.Body.Pos(), g.Decl.Body.End())
+				ok2, why2 := c.rebaseLoop(g, g.Decl.Body, gs, func(e ast.Expr) bool {
+					if gb == nil {
+						return false
+					}
+					e = core.Unparen(e)
+					if core.ObjOf(ginfo, e) == types.Object(gb) {
+						return true
+					}
+					// <param>.String() of a spec.Ref parameter, directly or through a local
+					if o := core.ObjOf(ginfo, e); o != nil {
+						if defs := c.P.Locals(g).Defs[o]; len(defs) == 1 && defs[0].Kind == core.DefAssign {
+							e = core.Unparen(defs[0].Expr)
+						}
+					}
+					if bc, ok := e.(*ast.CallExpr); ok {
+						if bs, ok := core.Unparen(bc.Fun).(*ast.SelectorExpr); ok && bs.Sel.Name == "String" && core.ObjOf(ginfo, bs.X) == types.Object(gb) {
+							return true
+						}
+					}
+					return false
+				}, g.Decl.Body.Pos(), g.Decl.Body.End())
 				if ok2 {
 					ok = true
 				} else {
@@ -1022,6 +1058,77 @@ func (c *Ctx) paramIndexOf(fi *core.FuncInfo, o types.Object) (int, bool) {
 const refTransientWhy = "transient: other parents are re-pointed to the first parent, possibly an anonymous pointer; the caller is told (replacedWithComplex) and pointer naming runs again on all paths"
 
 // refIsFirstParent: the ref is spec.MustCreateRef(<element 0 of the result of sortref.TopmostFirst>).
+// fieldFlowsToReturn: the expression is a bool member of a module struct (a flag carried by a state object) that some
+// module function returns, alone or as an operand of a disjunction.
+func (c *Ctx) fieldFlowsToReturn(fi *core.FuncInfo, e ast.Expr) bool {
+	sel, ok := core.Unparen(e).(*ast.SelectorExpr)
+	if !ok {
+		return false
+	}
+	fv := core.FieldOf(c.info(fi), sel)
+	if fv == nil || !core.IsBool(fv.Type()) {
+		return false
+	}
+	for _, g := range c.P.SortedFuncs() {
+		ginfo := c.info(g)
+		found := false
+		ast.Inspect(g.Decl.Body, func(n ast.Node) bool {
+			r, isRet := n.(*ast.ReturnStmt)
+			if !isRet {
+				return true
+			}
+			for _, x := range r.Results {
+				var visit func(e ast.Expr)
+				visit = func(e ast.Expr) {
+					e = core.Unparen(e)
+					if be, ok := e.(*ast.BinaryExpr); ok && be.Op == token.LOR {
+						visit(be.X)
+						visit(be.Y)
+						return
+					}
+					if s2, ok := e.(*ast.SelectorExpr); ok && core.FieldOf(ginfo, s2) == fv {
+						found = true
+					}
+				}
+				visit(x)
+			}
+			return true
+		})
+		if found {
+			return true
+		}
+	}
+	return false
+}
+
+// argOfOnlyCallSite: the expression is a parameter of fi, and fi has exactly one call site in the module: returns
+// the caller and the argument.
+func (c *Ctx) argOfOnlyCallSite(fi *core.FuncInfo, e ast.Expr) (*core.FuncInfo, ast.Expr) {
+	o := core.ObjOf(c.info(fi), e)
+	if o == nil {
+		return nil, nil
+	}
+	idx, isParam := c.paramIndexOf(fi, o)
+	if !isParam {
+		return nil, nil
+	}
+	var caller *core.FuncInfo
+	var arg ast.Expr
+	sites := 0
+	for _, g := range c.P.SortedFuncs() {
+		for _, call := range calls(g.Decl.Body) {
+			if c.P.StaticCallee(g, call) == fi.Obj && idx < len(call.Args) {
+				sites++
+				caller, arg = g, call.Args[idx]
+			}
+		}
+	}
+	if sites != 1 {
+		return nil, nil
+	}
+	return caller, arg
+}
+
 func (c *Ctx) refIsFirstParent(fi *core.FuncInfo, ref ast.Expr) bool {
 	info := c.info(fi)
 	resolve := func(e ast.Expr) ast.Expr {
@@ -1046,7 +1153,33 @@ func (c *Ctx) refIsFirstParent(fi *core.FuncInfo, ref ast.Expr) bool {
 	if cal := c.P.CalleeAny(fi, call); cal == nil || cal.FullName() != "github.com/go-openapi/spec.MustCreateRef" {
 		return false
 	}
-	ix, ok := resolve(call.Args[0]).(*ast.IndexExpr)
+	first := resolve(call.Args[0])
+	// the first parent handed over by the only caller
+	if caller, arg := c.argOfOnlyCallSite(fi, first); caller != nil {
+		return c.isFirstOfTopmost(caller, arg)
+	}
+	return c.isFirstOfTopmost(fi, first)
+}
+
+// isFirstOfTopmost: the expression is element 0 of the result of sortref.TopmostFirst (through locals).
+func (c *Ctx) isFirstOfTopmost(fi *core.FuncInfo, e ast.Expr) bool {
+	info := c.info(fi)
+	resolve := func(e ast.Expr) ast.Expr {
+		e = core.Unparen(e)
+		for i := 0; i < 3; i++ {
+			o := core.ObjOf(info, e)
+			if o == nil {
+				break
+			}
+			defs := c.P.Locals(fi).Defs[o]
+			if len(defs) != 1 || defs[0].Kind != core.DefAssign {
+				break
+			}
+			e = core.Unparen(defs[0].Expr)
+		}
+		return e
+	}
+	ix, ok := resolve(e).(*ast.IndexExpr)
 	if !ok {
 		return false
 	}
@@ -1120,7 +1253,7 @@ func (c *Ctx) raisesRerunFlag(fi *core.FuncInfo, site *ast.CallExpr, ref ast.Exp
 	for _, st := range blk.List {
 		switch x := st.(type) {
 		case *ast.AssignStmt:
-			if len(x.Lhs) != 1 || len(x.Rhs) != 1 || !core.IsBool(info.TypeOf(x.Lhs[0])) || !c.flowsToReturn(fi, x.Lhs[0]) {
+			if len(x.Lhs) != 1 || len(x.Rhs) != 1 || !core.IsBool(info.TypeOf(x.Lhs[0])) || !(c.flowsToReturn(fi, x.Lhs[0]) || c.fieldFlowsToReturn(fi, x.Lhs[0])) {
 				continue
 			}
 			// flag = flag || <test>
@@ -1136,7 +1269,7 @@ func (c *Ctx) raisesRerunFlag(fi *core.FuncInfo, site *ast.CallExpr, ref ast.Exp
 				continue
 			}
 			for _, bs := range x.Body.List {
-				if as, ok := bs.(*ast.AssignStmt); ok && len(as.Lhs) == 1 && len(as.Rhs) == 1 && c.flowsToReturn(fi, as.Lhs[0]) {
+				if as, ok := bs.(*ast.AssignStmt); ok && len(as.Lhs) == 1 && len(as.Rhs) == 1 && (c.flowsToReturn(fi, as.Lhs[0]) || c.fieldFlowsToReturn(fi, as.Lhs[0])) {
 					if tv, isC := info.Types[as.Rhs[0]]; isC && tv.Value != nil && tv.Value.String() == "true" {
 						return true
 					}
@@ -1225,6 +1358,36 @@ func (c *Ctx) isCanonicalRef(fi *core.FuncInfo, ref ast.Expr, site *ast.CallExpr
 		})
 		if okAssign {
 			return true, "proven top-level by the dominating test on path.Dir(ref) == '#/definitions'"
+		}
+		// X built as a whole: X := T{Ref: R, TopLevel: <top-level test of R>, …}, directly or by a constructor whose
+		// single result is such a literal
+		if xo := core.ObjOf(info, sel.X); xo != nil {
+			if defs := c.P.Locals(fi).Defs[xo]; len(defs) == 1 && defs[0].Kind == core.DefAssign && defs[0].Expr != nil {
+				lfi, lit := fi, core.Unparen(defs[0].Expr)
+				if call, isCall := lit.(*ast.CallExpr); isCall {
+					if g := c.singleReturn(fi, call); g != nil {
+						lfi, lit = g.fi, core.Unparen(g.e)
+					}
+				}
+				if cl, isLit := lit.(*ast.CompositeLit); isLit {
+					var refVal, topVal ast.Expr
+					for _, el := range cl.Elts {
+						if kv, ok := el.(*ast.KeyValueExpr); ok {
+							if id, ok := kv.Key.(*ast.Ident); ok {
+								switch id.Name {
+								case refSel.Sel.Name:
+									refVal = kv.Value
+								case "TopLevel":
+									topVal = kv.Value
+								}
+							}
+						}
+					}
+					if refVal != nil && topVal != nil && c.isTopLevelTest(lfi, topVal, 0) && strings.Contains(exprStr(topVal), exprStr(refVal)) {
+						return true, "proven top-level by the dominating test on a record built with TopLevel = (path.Dir(ref) == '#/definitions') of the same ref"
+					}
+				}
+			}
 		}
 	}
 	// (c) the reference already held at this key, with a prefix (the document part) stripped and nothing else:
@@ -1964,6 +2127,45 @@ func (c *Ctx) panicBoundary() {
 			}
 			lit, isLit := core.Unparen(ds.Call.Fun).(*ast.FuncLit)
 			if !isLit {
+				// defer helper(&err): the helper is the deferred function, so its own recover() takes effect; it must
+				// store what it recovered through the pointer it was given
+				h := c.P.Funcs[c.P.StaticCallee(fi, ds.Call)]
+				passes := -1
+				for i, a := range ds.Call.Args {
+					if u, isAddr := core.Unparen(a).(*ast.UnaryExpr); isAddr && u.Op == token.AND && core.ObjOf(info, u.X) == named {
+						passes = i
+					}
+				}
+				if h == nil || h.Decl == nil || h.Decl.Body == nil || passes < 0 {
+					continue
+				}
+				hinfo := c.info(h)
+				hsig := h.Obj.Type().(*types.Signature)
+				if passes >= hsig.Params().Len() {
+					continue
+				}
+				hp := hsig.Params().At(passes)
+				hRecovers, hStores := false, false
+				ast.Inspect(h.Decl.Body, func(n ast.Node) bool {
+					switch x := n.(type) {
+					case *ast.FuncLit:
+						return false // recover() inside a nested literal would not stop the panic
+					case *ast.CallExpr:
+						if isBuiltin(hinfo, x, "recover") {
+							hRecovers = true
+						}
+					case *ast.AssignStmt:
+						for _, l := range x.Lhs {
+							if st, isStar := core.Unparen(l).(*ast.StarExpr); isStar && core.ObjOf(hinfo, st.X) == hp {
+								hStores = true
+							}
+						}
+					}
+					return true
+				})
+				if hRecovers && hStores {
+					ok = true
+				}
 				continue
 			}
 			callsRecover, assigns := false, false
@@ -2021,7 +2223,7 @@ func (c *Ctx) panicBoundary() {
 					guarded = true
 				}
 				if outer, ok := pm[lit].(*ast.CallExpr); ok {
-					if g := c.P.StaticCallee(fi, outer); g != nil && guards[g] {
+					if g := c.P.StaticCallee(fi, outer); g != nil && (guards[g] || guards[g.Origin()]) {
 						guarded = true
 					}
 				}
